@@ -1,6 +1,6 @@
 package workqueue
 
-// Method A: schedules found by TLC on specs/WorkQueue (MC_f3/f4/f5/f6.cfg and variants) replayed on
+// Method A: schedules found by TLC on specs/WorkQueue (MC_f3/f4/f5/f6/f7.cfg and variants) replayed on
 // the REAL primitives of /repo/pkg/workqueue.  F3, F4 and F6 were genuine defects found this way and
 // are fixed in /repo (commits 4a6260676, 3996f0eab, 294b0250e): their schedules must not reproduce any
 // more (a reproduction carries the old signature, which known-findings.json lists as "fixed", so the
@@ -293,6 +293,133 @@ func scenarioMailboxFinishWindow(withClose bool, workers int) outcome {
 	if !withClose && o.reproduced {
 		// no known defect explains a lost item without a concurrent Close
 		o.fresh, o.reproduced = "admitted item lost by the finish/re-schedule path without any Close in the window", false
+	}
+	o.history, o.steps = h.snapshot(), len(h.snapshot())
+	return o
+}
+
+// scenarioMailboxReschedOverlap replays MC_f7's counterexample (WQMailbox with ReschedKeepsFlag = FALSE,
+// i.e. a finishShardDrain that re-invokes the shard without setting `scheduled` again; 21 states):
+//   Submit(1) ok -> drain A handles 1, sees the queue empty (W_Next -> "fin"), is parked before finishShardDrain
+//   Submit(2) ok (M_Lock: shard still scheduled, the item is only enqueued)
+//   drain A resumes: finishShardDrain finds item 2 and re-invokes the shard (W_Fin, needs)
+//   the follow-up drain takes item 2 and is parked inside the handler (W_HStart without W_HEnd)
+//   Submit(3) ok -- in the variant `scheduled` is false here, so M_Lock sets it and M_Invoke starts a
+//   second drain on a free worker: W_HStart(3) while item 2 of the same shard is inside the handler.
+// Property: a shard never has two handler invocations in flight and hands its items to the handler in
+// admission order, each exactly once.  The code as it is (ReschedKeepsFlag = TRUE) must not reproduce:
+// item 3 waits in the queue until the handler of item 2 returns.  Needs Workers >= 2.
+func scenarioMailboxReschedOverlap(workers int) outcome {
+	o := outcome{name: fmt.Sprintf("mailbox-resched-overlap/workers=%d", workers)}
+	h := newHist()
+	obs := &mailboxObs{parked: make(chan struct{}), release: make(chan struct{})}
+	obs.armed.Store(true)
+	var releaseOnce, gateOnce, once2, once3 sync.Once
+	release := func() { releaseOnce.Do(func() { close(obs.release) }) }
+	defer release()
+	gate2 := make(chan struct{})
+	openGate2 := func() { gateOnce.Do(func() { close(gate2) }) }
+	defer openGate2()
+	entered2, entered3 := make(chan struct{}), make(chan struct{})
+	var inFlight, peak atomic.Int64
+	var orderMu sync.Mutex
+	var order []int
+	m, err := wq.NewShardedMailbox[int](wq.ShardedMailboxConfig{
+		Name: "verif", Shards: 1, Workers: workers, QueueSizePerShard: 8, BatchMaxItems: 1, Observer: obs,
+	}, func(_ context.Context, b wq.MailboxBatch[int]) error {
+		cur := inFlight.Add(1)
+		for {
+			old := peak.Load()
+			if cur <= old || peak.CompareAndSwap(old, cur) {
+				break
+			}
+		}
+		h.run(b.Items...)
+		orderMu.Lock()
+		order = append(order, b.Items...)
+		orderMu.Unlock()
+		for _, i := range b.Items {
+			switch i {
+			case 2:
+				once2.Do(func() { close(entered2) })
+				<-gate2
+			case 3:
+				once3.Do(func() { close(entered3) })
+			}
+		}
+		inFlight.Add(-1)
+		return nil
+	})
+	if err != nil {
+		o.infra = "NewShardedMailbox: " + err.Error()
+		return o
+	}
+	bg := context.Background()
+	admitted, rejected := []int{}, []int{}
+	submit := func(i int) error {
+		e := m.SubmitHash(bg, 0, i)
+		h.logf("Submit(%d) = %s", i, errName(e))
+		if e == nil {
+			admitted = append(admitted, i)
+		} else {
+			rejected = append(rejected, i)
+		}
+		return e
+	}
+	if submit(1) != nil {
+		o.infra = "first Submit refused"
+		return o
+	}
+	if !waitCh(obs.parked, gateBound) {
+		o.infra = "drain never reached the observation before finishShardDrain"
+		return o
+	}
+	h.logf("drain parked before finishShardDrain (queue seen empty)")
+	if submit(2) != nil {
+		o.infra = "second Submit refused although the queue has room"
+		return o
+	}
+	release()
+	h.logf("drain released: finishShardDrain finds item 2")
+	overlap := false
+	if waitCh(entered2, gateBound) {
+		h.logf("follow-up drain parked inside the handler of item 2")
+		if submit(3) != nil {
+			o.infra = "third Submit refused although the queue has room"
+			return o
+		}
+		// only a second drain of the same shard can enter the handler while item 2 is parked in it
+		if overlap = waitCh(entered3, reproBound); overlap {
+			h.logf("item 3 entered the handler while item 2 of the same shard was still inside it (handlers in flight: %d)", peak.Load())
+		}
+		openGate2()
+		h.logf("handler of item 2 released")
+		if !overlap && !waitCh(entered3, gateBound) {
+			h.logf("item 3 was not handled after the handler of item 2 returned")
+		}
+	} else {
+		h.logf("item 2 was not handled after the drain resumed")
+		openGate2()
+	}
+	if cerr := m.Close(bg); cerr != nil {
+		o.infra = "Close returned " + cerr.Error()
+		return o
+	}
+	h.logf("Close() = nil")
+	judge(&o, h, admitted, rejected, false)
+	if o.reproduced { // no recorded defect explains a lost item here
+		o.fresh, o.reproduced = "admitted item lost by the finish/re-schedule path without any Close in the window", false
+	}
+	orderMu.Lock()
+	got := append([]int{}, order...)
+	orderMu.Unlock()
+	for k := 1; k < len(got); k++ {
+		if got[k] < got[k-1] && o.fresh == "" {
+			o.fresh = fmt.Sprintf("one shard handed its items to the handler in the order %v, admission order was 1 2 3", got)
+		}
+	}
+	if overlap || peak.Load() > 1 {
+		o.fresh = fmt.Sprintf("two handler invocations of one shard were in flight at once (peak %d): item 3 entered the handler while item 2 was inside it", peak.Load())
 	}
 	o.history, o.steps = h.snapshot(), len(h.snapshot())
 	return o
